@@ -71,7 +71,7 @@ func TestVerifReplay(t *testing.T) {
 			}
 		}
 	}
-	if len(icpt) > 0 {
+	if len(icpt) > 0 && !cfg.Replay.NoIntercept {
 		extra, err := nativeInterceptOverlay(icpt, repl, tmp)
 		if err != nil {
 			return false, "", err
@@ -210,7 +210,7 @@ func TestVerifTrace(t *testing.T) {
 	for r, v := range cfg.Replay.Overlay {
 		repl[filepath.Join(*repoDir, r)] = filepath.Join(*verifDir, v)
 	}
-	if len(icpt) > 0 {
+	if len(icpt) > 0 && !cfg.Replay.NoIntercept {
 		extra, err := nativeInterceptOverlay(icpt, repl, tmp)
 		if err != nil {
 			return 0, nil, err
